@@ -3,7 +3,7 @@
    the specification (Spec/IdxWriterSpec.v) demands, in the same shape.
 
    case 1  indexed string   [1; h5; cs; ops; extra]
-           ops    [0; strs] write_part | [1] complete | [2; strs] write | [3] clear
+           ops    [0; strs] write_part | [1] complete | [2; strs] write | [3] clear | [4] new wrapper
            extra  [kind; a; b]   reads outside the property's range (kind 0 W-slice, 1 RO-slice, 2 int):
                                  model only (the spec column repeats the model)
            answer [offsets; bytes; W-slices; RO-slices; items; extra]
@@ -23,6 +23,7 @@ Definition as_op (v:val) : option iwop :=
   | VL [VZ 1] => Some OpComplete
   | VL [VZ 2; p] => match as_list2 p with Some p => Some (OpWrite p) | None => None end
   | VL [VZ 3] => Some OpClear
+  | VL [VZ 4] => Some OpReopen
   | _ => None
   end.
 
@@ -37,6 +38,7 @@ Fixpoint written (acc:list (list Z)) (ops:list iwop) : list (list Z) :=
   | OpWrite p :: t => written (acc ++ p) t
   | OpComplete :: t => written acc t
   | OpClear :: t => written [] t
+  | OpReopen :: t => written acc t
   end.
 
 Definition do_extra (ind vals:list Z) (e:val) : val :=
